@@ -130,7 +130,7 @@ func Token(i int) []byte {
 
 const NTokens = 6
 
-var Denoms = []string{"uusdc", "UUSDC", "uUsdc", "uuſdc", "ueure", "uusdc2"}
+var Denoms = []string{"uusdc", "UUSDC", "uUsdc", "uuſdc", "ueure", "uusdc2", "factory/noble1xyz/usdx", "factory%2fnoble1xyz%2fusdx", "u%75sdc", "ibc/AB", "uusdc%20", "uusdc+"}
 
 var HostileNonces = []uint64{0, 1, 2, 255, 256, 0xffffffff, 0x100000000, 0x100000001, 0x2f2f2f2f2f2f2f2f, 1 << 63, ^uint64(0)}
 
